@@ -179,6 +179,33 @@ def run(ctx, dangling_clause=True):
            what="update_bookmark_pages visits the children of a bookmark only on one outcome of the `page == old` test: a nested bookmark that targets the same page as an ancestor keeps the old id")
     import corerules
     corerules.recursion_arg_order(ctx, F, ["Document::update_bookmark_pages"])
+    # the new target of a bookmark is what the rename map holds for its page — the direct result of the lookup, not a lookup
+    # filtered by a further condition (every entry of the map is a rename that was applied to the objects)
+    for x in lib.stores_to_field(ub, "page", "Bookmark"):
+        if x[1] == "T":
+            continue
+        o = x[2]["rv"].get("o") if x[2]["rv"]["k"] == "use" else None
+        src = None
+        cur = o
+        for _ in range(6):
+            q = op_place(cur) if cur is not None else None
+            if q is None:
+                break
+            d = ub.single_def(q["l"])
+            if d is None:
+                break
+            if d[2] == "rv" and d[3]["k"] in ("use", "cast"):
+                cur = d[3]["o"]
+                continue
+            if d[2] == "rv" and d[3]["k"] == "ref":
+                cur = {"c": d[3]["p"]}
+                continue
+            if d[2] == "call":
+                src = d[3]["f"].get("fn") or ""
+            break
+        okl = src is not None and re.search(r"BTreeMap::<.*>::get$|HashMap::<.*>::get$", src) is not None
+        ctx.ob(R, "bookmark-target-is-the-map-entry", okl, "Bookmark.page = *replace.get(&page) (value comes straight from %s)" % (src or "?").rsplit("::", 2)[-2:], ub.where(x[2]["ln"]),
+               what="update_bookmark_pages does not store the rename map's entry for the bookmark's page as it is (the stored value comes from %s): a rename that was applied to the objects is not applied to the bookmark" % (src or "a value that is not a lookup in the rename map"))
     # max_id
     st = lib.stores_to_field(b, "max_id")
     t = [b.rvname(s[2]["rv"], 4) for s in st if s[1] != "T"]
